@@ -6,6 +6,8 @@ import (
 	"bytes"
 	"crypto/sha256"
 	"fmt"
+	"github.com/holiman/uint256"
+	"github.com/zen-eth/shisui/storage"
 	"math/rand"
 	"net"
 	"strconv"
@@ -34,7 +36,13 @@ func runFindContent(o *Out, r *rand.Rand, thorough bool, _ []string) {
 	}
 	for round := 0; round < rounds; round++ {
 		mn := newMemNet()
-		nd := startNode(mn, r, nodeOpts{ip: net.IP{34, 50, 61, byte(10 + round)}, port: 9200 + round, utpLimit: 2000})
+		// every other round the node advertises a small radius: what it HOLDS is served whatever its radius says (a store
+		// keeps the farthest item of a pruning pass exactly at distance = radius, which the in-range test counts as outside)
+		var st storage.ContentStorage
+		if round%2 == 1 {
+			st = &radiusStore{db: map[string][]byte{}, radius: new(uint256.Int).Lsh(uint256.NewInt(1), uint(r.Intn(250)))}
+		}
+		nd := startNode(mn, r, nodeOpts{ip: net.IP{34, 50, 61, byte(10 + round)}, port: 9200 + round, utpLimit: 2000, store: st})
 		count := 40 + r.Intn(220)
 		if round%3 == 2 {
 			count = r.Intn(6) // nearly empty table
